@@ -311,6 +311,11 @@ def run(F, R):
         ok = a0.startswith("iter(collect::<std::vec::Vec<&protocol::response::App>>(filter(iter(") and ".apps), " in a0 and ("join(" in a1 or "perform_install" in a1 or "poll(" in a1)
         R.check("C10-R5", "zip-operands", ok, "zip(apps_with_update.iter(), &app_install_results)", "zip(%s, %s)" % (a0[:80], a1[:80]), lib.loc(hb, bi))
 
+    # ---------------------------------------------------------------- lock discipline (shared engine va/locks.py)
+    R.rule("C10-R6", "a report cannot stall the check: no report is sent while a guard of a mutex that the exchange function itself takes (the storage mutex, when the poll interval changes) is held")
+    from .. import locks as _locks
+    _locks.check(R, "C10-R6", sm.w, [sm.c], floor_regions=12)
+
 
 def _ctxkey(ctx):
     parts = []
